@@ -333,10 +333,30 @@ def expand_slice(v, path):
     return [list(path)]
 
 
+def through_missing_default(v, path):
+    """does the path pass - at a non-final position - through a key that is absent from a dict with a default?
+    pop / remove create the entry from the default there; assignment forms raise "nothing at key"; neither is documented."""
+    for p in path[:-1]:
+        if p[0] == "s":
+            return False
+        if kind(v) == "d" and len(v) > 2:
+            key = p[1] if p[0] == "k" else (I(p[1]) if p[0] == "i" else None)
+            if key is not None and dict_find(v, key) is None:
+                return True
+        v = get1(v, p)
+        if v == RAISE:
+            return False
+    return False
+
+
 def model_apply(store, s):
     """-> new store or RAISE"""
     st = copy.deepcopy(store)
     k = s[0]
+    if k in ("assign", "op", "every", "everyop") and through_missing_default(st[s[1]], s[2]):
+        return SKIP
+    if k == "swap" and (through_missing_default(st[s[1]], s[2]) or through_missing_default(st[s[3]], s[4])):
+        return SKIP
     if k == "capture":
         v = getp(st[s[1]], s[2])
         if v == RAISE:
@@ -542,6 +562,9 @@ def menu_dicts():
         ("remove", a, [k_(1)]), ("remove", a, [k_(1), i_(0)]), ("remove", b, [k_(2)]), ("pop", a, [k_(1)]),
         ("swap", a, [], b, []), ("swap", a, [k_(1)], a, [k_(2)]), ("swap", a, [k_(1)], b, [k_(2)]),
         ("swap", a, [k_(1)], a, [k_(1)]), ("swap", a, [k_(1), i_(0)], a, [k_(1), i_(-1)]), ("capture", a, []), ("capture", a, [k_(1)]),
+        # through a key that is NOT present in a dict with a (non-empty) default: the entry is created from the default and then changed
+        ("pop", c, [k_(7)]), ("remove", c, [k_(7), i_(0)]), ("remove", c, [k_(8), ("s", 0, 1)]), ("op", c, [k_(7), i_(0)], "+", ONE),
+        ("assign", c, [k_(9), i_(1)], SEVEN), ("every", c, [k_(7), ("s", 0, 2)], lit(I(0), "0")), ("swap", c, [k_(7), i_(0)], c, [k_(7), i_(1)]),
         ("consume", c, a), ("for", a), ("assign", b, [], ("list", VA, VC)), ("assign", b, [i_(0), k_(1), i_(0)], lit(I(2), "2")),
         ("op", b, [i_(1), k_(7)], "append", ONE),
     ]
@@ -611,8 +634,8 @@ SCENARIOS = {
     "lists-aliased": {"pre": ["a := [[1, 2], [3]]", "b := a", "c := [a, 5]"], "store": {"a": L(L(I(1), I(2)), L(I(3))), "b": L(L(I(1), I(2)), L(I(3))),
                                                                                        "c": L(L(L(I(1), I(2)), L(I(3))), I(5))}, "menu": menu_lists},
     "lists-fresh": {"pre": ["a := [1, 2, 3]", "b := [[4]]", "c := null"], "store": {"a": L(I(1), I(2), I(3)), "b": L(L(I(4))), "c": None}, "menu": menu_lists},
-    "dicts": {"pre": ["a := {1: [1], 2: [2]}", "b := a", "c := {:[]}"],
-              "store": {"a": ["d", [[I(1), L(I(1))], [I(2), L(I(2))]]], "b": ["d", [[I(1), L(I(1))], [I(2), L(I(2))]]], "c": ["d", [], L()]}, "menu": menu_dicts},
+    "dicts": {"pre": ["a := {1: [1], 2: [2]}", "b := a", "c := {:[5, 6]}"],
+              "store": {"a": ["d", [[I(1), L(I(1))], [I(2), L(I(2))]]], "b": ["d", [[I(1), L(I(1))], [I(2), L(I(2))]]], "c": ["d", [], L(I(5), I(6))]}, "menu": menu_dicts},
     "strings": {"pre": ['a := "abc"', "b := a", "c := [a, a]"], "store": {"a": ["s", "abc"], "b": ["s", "abc"], "c": L(["s", "abc"], ["s", "abc"])},
                 "menu": lambda: menu_flat("string")},
     "vectors": {"pre": ["a := V(1, 2, 3)", "b := a", "c := [a, a]"], "store": {"a": ["v", [I(1), I(2), I(3)]], "b": ["v", [I(1), I(2), I(3)]],
